@@ -158,6 +158,11 @@ def run(job, seed):
                     rules['default'] = dflt
                 if plain:
                     rules['plain'] = 'role:member'
+                    # two policies the library cannot decide at all (their
+                    # `%` directives make the substitution itself raise): the
+                    # tool reports that and goes on with the next policy
+                    rules['svc:e-bad'] = 'role:member and quota:100%'
+                    rules['svc-ext:bad'] = 'role:%d'
                 w.write('policy.yaml', world.dumps_policy(rules))
                 conf = world.new_conf(w.root, policy_dirs=[])
                 enf = P.Enforcer(conf, policy_file=w.path('policy.yaml'))
@@ -214,9 +219,16 @@ def one(acc, shell, enf, w, rules, tn, doc, is_admin, tg, rq):
     creds, target = derive(doc, is_admin, TARGETS[tg])
     names = [rq] if rq else sorted(n for n in rules if ':' in n)
     exp = []
+    undecidable = set()
     for n in names:
         r = world.decide(enf, n, dict(target), copy.deepcopy(creds))
+        if r[0] != 'ok' and n in ('svc:e-bad', 'svc-ext:bad'):
+            undecidable.add(n)
+            continue
         exp.append('%s: %s' % ('passed' if r == ('ok', True) else 'failed', n))
+    if undecidable:
+        # whatever the tool prints about those is not a verdict
+        got = [g for g in got if g.startswith(('passed: ', 'failed: '))]
     case = {'rules': rules, 'token': tn, 'is_admin': is_admin, 'target': tg,
             'rule': rq, 'via_main': via_main}
     scope = tn.split('-')[0] if not tn.startswith('sample') else tn
